@@ -481,3 +481,33 @@ def content_not_display(ck, F, rule="CONTENT-TEXT"):
                     ck.ob(rule, "get_localized_cell_content|text-read-after-error-check#%d" % k, any(b.dominates(e, rb) for e in none_edges),
                           "the formatter's text is used as cell content without checking that formatting succeeded", f, l)
         ck.ob(rule, "get_localized_cell_content|text-read", k >= 1, "format_number result is never read (anchor lost?)", b.file, b.line)
+
+
+def width_actual(ck, F, rule="WIDTH-ACTUAL"):
+    """A stored column width never comes from the *displayed* width: no argument passed as `width` to
+    Worksheet::set_column_width / set_column_width_and_style derives from get_column_width (0 for a hidden column);
+    relocation code reads get_actual_column_width."""
+    n = 0
+    for path in sorted(F.body_paths()):
+        cs = F.calls.get(path, [])
+        if not any(c.endswith("::set_column_width") or c.endswith("::set_column_width_and_style") for c in cs):
+            continue
+        b = F.body(path)
+        for bi, t in b.calls():
+            c = b.callee(t)
+            q = b.callee_q(t) or ""
+            if not (q.endswith("Worksheet::set_column_width") or q.endswith("Worksheet::set_column_width_and_style")) or c not in F.heads:
+                continue
+            cb = F.body(c)
+            idx = [i for i in range(1, cb.nargs + 1) if cb.local_name(i) == "width"]
+            if not idx or idx[0] - 1 >= len(t["args"]):
+                continue
+            sr = sources(b, t["args"][idx[0] - 1])
+            bad = [x for x in sr if x[0] == "call" and x[1].endswith("::get_column_width")]
+            n += 1
+            f, l = b.loc(bi)
+            qn = b.qname.split("::", 1)[-1]
+            ck.ob(rule, "%s|%s" % (qn, q.rsplit("::", 1)[-1]), not bad,
+                  "%s stores a column width read with get_column_width (the displayed width, 0.0 while the column is hidden): "
+                  "a hidden column that is moved or rebuilt loses its width" % qn, f, l, sample={"fn": qn})
+    ck.note("width_stores", n)
